@@ -74,6 +74,10 @@ pub struct Publish {
     pub recs: Vec<Rec>,
     pub corrupt_signature: bool,
     pub truncate_body: bool,
+    /// Some(j): same signer and byte-identical DNS payload as publish #j of the case (a periodic
+    /// republish of unchanged records), only the timestamp differs
+    #[serde(default)]
+    pub republish_of: Option<u8>,
 }
 
 fn secret(k: u8) -> SecretKey {
@@ -337,8 +341,22 @@ fn run_seq(case: &SeqCase, ctx: &Ctx, check_updates: bool) {
         let mut qid = 1u16;
         let mut rejected = 0;
         let mut noop = 0;
+        let mut bases: Vec<u32> = vec![];
         for (i, p) in case.publishes.iter().enumerate() {
-            let built = build_packet(p, marker_base);
+            // a republish carries the records (and markers) of the publish it repeats
+            let (p, base) = match p.republish_of.map(|j| j as usize).filter(|j| *j < i) {
+                Some(j) => {
+                    ctx.count("probe.republish_of_unchanged_records");
+                    let mut q = p.clone();
+                    q.signer = case.publishes[j].signer;
+                    q.recs = case.publishes[j].recs.clone();
+                    (q, bases[j])
+                }
+                None => (p.clone(), marker_base),
+            };
+            let p = &p;
+            bases.push(base);
+            let built = build_packet(p, base);
             marker_base += 16;
             let path_key = p.path_key.unwrap_or(p.signer);
             let mut body = built.bytes[32..].to_vec();
@@ -508,6 +526,7 @@ fn gen_publish(rng: &mut Rng, adversarial: bool, ts_pool: &[i64]) -> Publish {
         recs: gen_recs(rng, adversarial),
         corrupt_signature: adversarial && rng.chance(1, 8),
         truncate_body: adversarial && rng.chance(1, 12),
+        republish_of: None,
     }
 }
 
@@ -542,6 +561,12 @@ impl Typed for C37 {
             }
             if rng.coin() {
                 p.signer = 0;
+            }
+        }
+        // periodic republishes of unchanged records: same payload as an earlier publish, own timestamp
+        for i in 1..publishes.len() {
+            if rng.chance(1, 4) {
+                publishes[i].republish_of = Some(rng.range(0, i as u64 - 1) as u8);
             }
         }
         SeqCase { cfg: gen_cfg(rng), publishes, seed: rng.next_u64() }
@@ -641,7 +666,7 @@ impl Typed for C38 {
                 tokio::task::spawn_local(async move {
                     for (n, (gk, ga)) in plan.iter().enumerate() {
                         gap(*gk, *ga).await;
-                        let p = Publish { signer: 0, path_key: None, ts: 1000 * (n as i64 + 1), recs: vec![Rec { label: 0, zone: Zone::Own, kind: RecKind::Txt }], corrupt_signature: false, truncate_body: false };
+                        let p = Publish { signer: 0, path_key: None, ts: 1000 * (n as i64 + 1), recs: vec![Rec { label: 0, zone: Zone::Own, kind: RecKind::Txt }], corrupt_signature: false, truncate_body: false, republish_of: None };
                         // marker = packet sequence number + 1
                         let built = build_packet(&p, n as u32 + 1);
                         ctx.ev(format!("publish P{} invoke", n + 1));
@@ -883,7 +908,7 @@ fn run_crash(case: &DurCase, ctx: &Ctx) {
         };
         for (i, (signer, ts, gap_ms)) in case.publishes.iter().enumerate() {
             tokio::time::sleep(Duration::from_millis(*gap_ms as u64)).await;
-            let p = Publish { signer: *signer, path_key: None, ts: *ts, recs: vec![Rec { label: 0, zone: Zone::Own, kind: RecKind::Txt }], corrupt_signature: false, truncate_body: false };
+            let p = Publish { signer: *signer, path_key: None, ts: *ts, recs: vec![Rec { label: 0, zone: Zone::Own, kind: RecKind::Txt }], corrupt_signature: false, truncate_body: false, republish_of: None };
             let built = build_packet(&p, i as u32 + 1);
             let sp = SignedPacket::from_bytes(&built.bytes).unwrap();
             published2.lock().unwrap().push((*signer, sp));
@@ -1018,7 +1043,7 @@ fn run_eviction(case: &DurCase, e: &EvictCase, ctx: &Ctx) {
         for (i, (k, age)) in e.ages_s.iter().enumerate() {
             // one packet per key: later packets for a key must be newer to be stored
             let ts = (wall0 as i64 - age * 1_000_000 + i as i64) as u64;
-            let p = Publish { signer: *k, path_key: None, ts: ts as i64 - EPOCH0 as i64, recs: vec![Rec { label: 0, zone: Zone::Own, kind: RecKind::Txt }], corrupt_signature: false, truncate_body: false };
+            let p = Publish { signer: *k, path_key: None, ts: ts as i64 - EPOCH0 as i64, recs: vec![Rec { label: 0, zone: Zone::Own, kind: RecKind::Txt }], corrupt_signature: false, truncate_body: false, republish_of: None };
             let built = build_packet(&p, i as u32 + 1);
             let status = server.pkarr_put(&z32(*k), Bytes::from(built.bytes[32..].to_vec())).await;
             ctx.ev(format!("publish k{k} age={age}s -> {status}"));
@@ -1049,7 +1074,7 @@ fn run_eviction(case: &DurCase, e: &EvictCase, ctx: &Ctx) {
                     base as i128 + at.elapsed().as_micros() as i128 + skew as i128
                 };
                 let ts = (now - 1_000_000) as u64;
-                let p = Publish { signer: k, path_key: None, ts: ts as i64 - EPOCH0 as i64, recs: vec![Rec { label: 0, zone: Zone::Own, kind: RecKind::Txt }], corrupt_signature: false, truncate_body: false };
+                let p = Publish { signer: k, path_key: None, ts: ts as i64 - EPOCH0 as i64, recs: vec![Rec { label: 0, zone: Zone::Own, kind: RecKind::Txt }], corrupt_signature: false, truncate_body: false, republish_of: None };
                 let built = build_packet(&p, n_old + 10 + n as u32);
                 let status = server.pkarr_put(&z32(k), Bytes::from(built.bytes[32..].to_vec())).await;
                 ctx.ev(format!("republish k{k} at {at_ms} ms ts={ts} -> {status}"));
